@@ -5,7 +5,7 @@
 # demo on clean (expect 0) and patched (expect non-zero) -> the property's check on the patched copy ->
 # every other claimed check on the patched copy (who else notices). Prints a summary; writes nothing to /repo.
 set -u
-id=$1; seed=${2:-/tmp/seed/$id/SEED}
+id=$1; seed=${2:-/tmp/seed/$id/SEED}; prop=${id:0:3}
 export PATH=/opt/veriftools/go1.26.8/bin:$PATH GOFLAGS=-mod=mod GOPROXY=off GOSUMDB=off GOTOOLCHAIN=local GOWORK=off
 tmp=$(mktemp -d /tmp/evalseed-XXXXXX); trap 'rm -rf "$tmp"' EXIT
 [ -f "$seed/patch.diff" ] || { echo "NO-PATCH $seed/patch.diff"; exit 3; }
@@ -36,6 +36,6 @@ mkdir -p "$tmp/ev/evidence"; cp /verif/known_findings.json "$tmp/ev/"
 for p in $(/verif/bin/goccverif -list | tr ' ' '\n' | grep '^C[0-9]'); do
   out=$(/verif/bin/goccverif -prop "$p" -tier quick -repo "$tmp/patched" -out "$tmp/ev/evidence" 2>&1); rc=$?
   if [ $rc -ne 0 ]; then echo "CHECK $p exit=$rc"; echo "$out" | grep -v '^VIOLATION' | grep 'REFUTED\|UNDECIDED' | cut -c1-400 | head -4; fi
-  [ "$p" = "$id" ] && echo "PROPERTY-CHECK $p exit=$rc"
+  [ "$p" = "$prop" ] && echo "PROPERTY-CHECK $p exit=$rc"
 done
 echo "SUMMARY id=$id demo_clean=$rc1 demo_patched=$rc2"
